@@ -101,7 +101,8 @@ Fixpoint params_loop (fuel : nat) (count : N) (st : list val * list val) (l : li
 Definition params_parse (count : N) (body : list N) : result val :=
   '(fs, os) <- params_loop (length body) count (fresh_fields, []) body ;; Ok (VL (fs ++ [VL os])).
 
-(* ParamContent[T].encode: nothing when Len is 0, otherwise id, Len, the value by its type *)
+(* ParamContent[T].encode: nothing for a parameter that was never set (Len 0 and ID 0; repaired 65a48a9: an empty
+   value with its ID set is still written), otherwise id, Len, the value by its type *)
 Definition enc_value (k : pkind) (x : val) : list N :=
   match k, x with
   | K16, VN n => be_enc 2 n
@@ -114,7 +115,7 @@ Definition enc_value (k : pkind) (x : val) : list N :=
   end.
 Definition enc_field (k : pkind) (f : val) : list N :=
   match f with
-  | VL [VN id; VN plen; x] => if plen =? 0 then [] else be_enc 4 id ++ [plen] ++ enc_value k x
+  | VL [VN id; VN plen; x] => if (plen =? 0) && (id =? 0) then [] else be_enc 4 id ++ [plen] ++ enc_value k x
   | _ => []
   end.
 Fixpoint enc_fields (tbl : list (N * pkind)) (fs : list val) : list N :=
@@ -124,7 +125,7 @@ Fixpoint enc_fields (tbl : list (N * pkind)) (fs : list val) : list N :=
   end.
 Definition enc_other (o : val) : list N :=
   match o with
-  | VL [VN id; VN plen; VB c] => if plen =? 0 then [] else be_enc 4 id ++ [plen] ++ c
+  | VL [VN id; VN plen; VB c] => if (plen =? 0) && (id =? 0) then [] else be_enc 4 id ++ [plen] ++ c
   | _ => []
   end.
 Definition nfields : nat := length param_fields.
@@ -136,8 +137,8 @@ Definition params_encode (v : val) : list N :=
   end.
 
 (* the domain: a typed field is either unset or holds its own id, the length of its type (for text: of its GBK
-   form, at least one byte) and a value of that type; the three caseless fields are unset; unknown ids have no
-   typed case, a non-empty value whose length is Len, and are strictly ascending; count = number of items *)
+   form, possibly 0) and a value of that type; the three caseless fields are unset; unknown ids have no
+   typed case, a value whose length is Len (not both id 0 and Len 0), and are strictly ascending; count = number of items *)
 Definition field_wf (id : N) (k : pkind) (f : val) : bool :=
   val_eqb f (unset k) ||
   match f with
@@ -147,7 +148,7 @@ Definition field_wf (id : N) (k : pkind) (f : val) : bool :=
       | K32, VN n => (plen =? 4) && (n <? 4294967296)
       | K16, VN n => (plen =? 2) && (n <? 65536)
       | K8, VN n => (plen =? 1) && (n <? 256)
-      | KStr, VB s => gdom s && (plen =? len (u2g s)) && (0 <? plen) && (plen <? 256)
+      | KStr, VB s => gdom s && (plen =? len (u2g s)) && (plen <? 256)
       | KB4, VB s => (plen =? 4) && (len s =? 4)
       | KB8, VB s => (plen =? 8) && (len s =? 8)
       | _, _ => false
@@ -155,7 +156,7 @@ Definition field_wf (id : N) (k : pkind) (f : val) : bool :=
   | _ => false
   end.
 Definition is_set (f : val) : bool :=
-  match f with VL [_; VN plen; _] => negb (plen =? 0) | _ => false end.
+  match f with VL [VN id; VN plen; _] => negb ((plen =? 0) && (id =? 0)) | _ => false end.
 Fixpoint fields_wf (tbl : list (N * pkind)) (fs : list val) : bool :=
   match tbl, fs with
   | [], [] => true
@@ -168,7 +169,7 @@ Fixpoint others_wf (lo : N) (os : list val) : bool :=
   | VL [VN id; VN plen; VB c] :: t =>
       (lo <=? id) && (id <? 4294967296) &&
       match param_kind id with None => true | Some _ => false end &&
-      (plen =? len c) && (0 <? plen) && (plen <? 256) && others_wf (id + 1) t
+      (plen =? len c) && ((0 <? plen) || (0 <? id)) && (plen <? 256) && others_wf (id + 1) t
   | _ => false
   end.
 Definition count_set (fs : list val) : N := len (filter is_set fs).
